@@ -1,5 +1,6 @@
 import CotengraVerif.Lemmas.SoundRun
 import CotengraVerif.Lemmas.SortOK
+import CotengraVerif.Lemmas.ChildrenFirst
 import CotengraVerif.Model.Recipes
 import Mathlib.Algebra.Ring.Int.Defs
 
@@ -31,6 +32,10 @@ import Mathlib.Algebra.Ring.Int.Defs
 * `model_extract_admissible_sorted` – in particular for the table that the model of
   `sort_contraction_indices` leaves behind, for every processing order (`priority`) and both
   flags (`sortInds_ok`).
+* `childrenFirst_of_childrenEarlier` – `ChildrenFirst` (an inductive schedule) covers every
+  traversal that is children-first in the plain positional sense (`ChildrenEarlier`: lists the
+  internal nodes, every child that is a node occurs earlier); `model_extract_admissible_positional`
+  restates the extraction theorem with that hypothesis.
 * `model_contract_correct` – soundness and extraction combined: C01 for the model.
 * `run_order_irrelevant` – any two children-first orders (and recipe choices) yield the same
   array (same shape, same entry at every position).
@@ -186,6 +191,15 @@ theorem model_extract_admissible (n : Net) (rm : List Ix) (t : BT) (order : List
     (ho : ChildrenFirst t order) :
     Admissible n rm t (extract n rm order preferEinsum) = true :=
   extractWith_admissible n rm t _ order preferEinsum hN hc G (inds_ok n rm t hN hc) ho
+
+/-- `model_extract_admissible` for traversals given positionally: `order` lists exactly the
+    internal nodes and every child that is itself a node occurs earlier in the list. -/
+theorem model_extract_admissible_positional (n : Net) (rm : List Ix) (t : BT) (I : BT → List Ix)
+    (order : List BT) (preferEinsum : Bool) (hN : 2 ≤ n.inputs.length) (hc : Complete n t)
+    (G : Guards n) (hI : IndsOK n rm t I) (ho : ChildrenEarlier t order) :
+    Admissible n rm t (extractWith n rm I order preferEinsum) = true :=
+  extractWith_admissible n rm t I order preferEinsum hN hc G hI
+    (childrenFirst_of_childrenEarlier t order (complete_nodup n t hc) ho)
 
 /-- **`model_extract_admissible_sorted`.**  The same after the model of
     `sort_contraction_indices(priority, make_output_contig, make_contracted_contig)`, for every
